@@ -25,7 +25,7 @@ ASSUMPTIONS = [
     "against the code; the Coq theorem about it is relative to a QR oracle with Q R = B_aggr, Q^T Q = I",
     "one OpenMP thread for the exact comparison of storage order (product() switches to spgemm_rmerge above 16 threads; "
     "Gershgorin estimate carries a per-thread diagonal)",
-    "pointwise_matrix and spectral_radius models are those of coq/MatOps2.v (matops group)",
+    "spectral_radius (Gershgorin) and product models are those of coq/MatOps2.v (matops group); pointwise_matrix is modelled in Aggregates.v (pwm) and cross-checked against MatOps2.pointwise_matrix (oracle o.pwm_agree)",
 ]
 TRUSTED_BASE = [
     "harness/drv_coarsen.cpp replaces global operator new by a filling allocator so that the uninitialised "
@@ -39,7 +39,7 @@ EPS = [gen.f32(F(8, 100)), F(1, 4), F(1, 2), F(0), F(1), gen.f32(F(1, 10)), F(1,
 EPS_RS = [F(1, 4), F(1, 2), gen.f32(F(1, 10)), F(1), F(0), F(3, 4)]
 RELAX = [F(1), F(1, 2), gen.f32(F(9, 10)), F(3, 2)]
 OI = [F(3, 2), F(2), F(1), gen.f32(F(11, 10))]
-ETR = [gen.f32(F(1, 5)), F(1, 2), F(1, 4), F(0), F(1)]
+ETR = [gen.f32(F(1, 5)), F(1, 2), F(1, 4), F(0), F(1), F(1, 2), F(1, 4)]
 
 
 def A_str(rows, m=None):
@@ -255,6 +255,7 @@ def derive(lines, impl):
             bs = int(tok[p + 2]) if op == "pointwise_aggregates" else 1
             mina = int(tok[p + 3]) if op == "pointwise_aggregates" else 0
             n = len(ids)
+            if bs > 1: reg("%s.pw o.pwm_agree %s %d" % (cid, A, bs), True)
             reg("%s.t tentative %d %d %s" % (cid, n, count, ivec_tokens(ids)))
             if bs == 1 and mina <= 1:
                 reg("%s.op o.partition %s %d %s %s" % (cid, A, count, ivec_tokens(ids), ivec_tokens(fl)), True)
@@ -318,7 +319,7 @@ def derive_pairs(lines, impl):
             for cid, tok, p, l in d["rs"]:
                 pr = parse_tr(impl.get(cid) or "")
                 if not pr or not cf: continue
-                ln = "%s.or o.rs_rowsum %s %s %s %s" % (cid, A, ivec_tokens(fl), cf, crs_tokens(pr[0]))
+                ln = "%s.or o.rs_rowsum %s %s %s %s %s %s" % (cid, tok[p + 1], tok[p + 2], A, ivec_tokens(fl), cf, crs_tokens(pr[0]))
                 orc.append(ln); origin[cid + ".or"] = l
     return orc, origin
 
@@ -379,7 +380,8 @@ def run(ctx, cases_override=None):
             if l_.startswith(x["oracle"]["line"]): x["oracle_full"] = l_; break
         x["theorem"] = {"o.partition": "C04_plain_aggregates_partition", "o.ptent": "C04_tentative_structure",
                         "o.sa_formula": "C04_sa_formula", "o.sa_rowsum": "C04_sa_row_sums",
-                        "o.rs_rowsum": "C04_rs_row_sums", "o.transpose": "C03/C04 R = transpose P"}.get(x["op"], x["theorem"]) + " (oracle %s)" % x["op"]
+                        "o.rs_rowsum": "C04_rs_row_sums", "o.transpose": "C03/C04 R = transpose P",
+                        "o.pwm_agree": "pointwise_matrix models of Aggregates.v and MatOps2.v agree"}.get(x["op"], x["theorem"]) + " (oracle %s)" % x["op"]
     fails += fo
     # ---- Ruge-Stuben under a poisoning allocator (every allocation pre-filled with 0xFF): since /repo
     #      commit 8cfa879 connect() writes every S.val cell, so the result must not depend on the fill
@@ -430,7 +432,7 @@ def _rs_tie(fail):
     try:
         ctok = fail["case"].split(); et = F(ctok[-2]); dt = ctok[-3]
         if dt != "1": return False
-        tok = (fail.get("oracle_full") or fail["oracle"]["line"]).split()[2:]
+        tok = (fail.get("oracle_full") or fail["oracle"]["line"]).split()[4:]
         A, p = take_crs(tok, 0)
         n, m, rows = parse_out_crs("{" + _crs_to_out(A) + "}")
         nfl = int(tok[p]); fl = tok[p + 1:p + 1 + nfl]; p += 1 + nfl
